@@ -50,6 +50,8 @@ CATALOGUE = {
                      params=dict(a=0.2, b=0.2, c=3.0), x0=[1.0, -1.0], T=2.0),
     "Lorenz": dict(states=["x", "y", "z"], rhs=["sigma*(y - x)", "x*(rho - z) - y", "x*y - beta*z"],
                    params=dict(beta=8.0 / 3.0, sigma=10.0, rho=28.0), x0=[1.0, 1.0, 1.0], T=0.25),
+    # a slowly decaying fast rotation: one long gap between output times costs lsoda thousands of internal steps
+    "Spiral": dict(states=["x", "y"], rhs=["-a*x + w*y", "-w*x - a*y"], params=dict(a=0.03, w=5.0), x0=[1.0, 0.5], T=100.0),
     "vanDerPol": dict(states=["y", "x"], rhs=["x", "mu*(1 - y*y)*x - y"], params=dict(mu=1.0), x0=[2.0, 0.0], T=4.0),
 }
 
@@ -191,10 +193,16 @@ def build(spec, lambda_backend=True):
     import pg
     if spec["kind"] == "catalogue":
         from pygom import common_models
-        ctor = getattr(common_models, spec["name"])
-        m = ctor(dict(spec["params"])) if spec["params"] else ctor()
-        if lambda_backend:
-            pg.lam(m)
+        if hasattr(common_models, spec["name"]):
+            ctor = getattr(common_models, spec["name"])
+            m = ctor(dict(spec["params"])) if spec["params"] else ctor()
+            if lambda_backend:
+                pg.lam(m)
+        else:       # a catalogue entry of ours, entered as explicit ODE equations
+            c = CATALOGUE[spec["name"]]
+            m = pg.model(lambda_backend=lambda_backend, state=list(c["states"]), param=list(c["params"]),
+                         ode=[pg.Transition(origin=st, equation=eq, transition_type="ODE") for st, eq in zip(c["states"], c["rhs"])])
+            m.parameters = dict(spec["params"])
     else:
         evs = []
         for e in spec["events"]:
@@ -478,6 +486,18 @@ def run(ck):
                 cs = cs + [dict(c, scalar_t=True) for c in calls if c.get("method") in (None, "dopri5")]
             for call, cls, what in sweep(ck, spec, grid, cs, stats, cases, m=m):
                 violations.append((spec, grid, call, cls, what))
+    # ---- corpus grids: (a) one long gap between output times (internal step budget of the integrators), (b) output spacing
+    #      far below 1e-5 of the absolute time (calendar years with daily output, epoch seconds): times must not be merged
+    fixed = [(dict(spec_catalogue("Spiral"), t0=0.0), [1.0, 2.5, 100.0]),
+             (dict(spec_catalogue("SIR_norm"), t0=5000.0), [5000.02, 5000.04, 5000.06, 5000.08]),
+             (dict(spec_catalogue("SIR_norm"), t0=738000.0), [738000.5, 738001.0, 738001.5])]
+    for spec, grid in fixed:
+        stats["grids"]["corpus"] = stats["grids"].get("corpus", 0) + 1
+        # the long gap is run on the methods whose step budget (nsteps / mxstep = 10000) covers it; vode/ivode (BDF/Adams at
+        # pygom's tolerances) exhaust it and say so with an IntegrationError, which is not a wrong answer
+        cs = [c for c in calls if not (spec["name"] == "Spiral" and c.get("method") in ("vode", "ivode"))]
+        for call, cls, what in sweep(ck, spec, grid, cs, stats, cases):
+            violations.append((spec, grid, call, cls, what))
     # ---- several solves on one model: after `initial_time` alone is changed, the same grid must be solved from the new t0
     for spec in specs[:ck.budget(6, 40)]:
         try:
